@@ -62,6 +62,7 @@ def run(chk):
                         'entities, assemblies, connections, secondary structure, sequences, numbers (%.9g) and the PDB route are '
                         'covered by the end-to-end oracles only, not by a theorem',
                         'the _entity output group is never switched off (the categories referring to entities cannot be read back without it)']
+    F.gen_tables()
     proved = chk.prove()
     h, d = F.harness_cif(), F.driver()
     res = vlib.correspond(chk, h, d, gen_lines(rng, quick), timeout=1500)
